@@ -111,6 +111,8 @@ type FnCtx struct {
 	resNames []string
 	labels   map[ast.Stmt]string
 	loopIdxVar map[ast.Node]*types.Var
+	loopGhostVars    map[string]*types.Var
+	escaping         map[types.Object]bool
 	curCallArgs      []string
 	lenientOuter     bool
 	matchedCallSites map[int]bool
@@ -177,6 +179,13 @@ func (c *FnCtx) heapGet(st *State, key string, so *Sort) Term {
 // (every entry lies in the range of the field's Go type) as a background axiom that is
 // included whenever the constant occurs in a query.
 func (c *FnCtx) heapTyping(name, key string) {
+	if strings.HasPrefix(key, "MD:") {
+		// the nil map has no entries
+		if so := c.e.d.consts[name]; so != nil && so.Kind == KArray && so.Elem.Kind == KArray {
+			c.e.d.addAxiomTrig("nilmap."+name, fmt.Sprintf("(= (select %s nilV) ((as const %s) false))", name, so.Elem.SMT()), name)
+		}
+		return
+	}
 	t := c.e.heapElemType[key]
 	if t == nil {
 		return
